@@ -21,7 +21,7 @@ import time
 from mc import canon, core, fordrun
 from mc.core import Stats
 from mc.explore import explore
-from mc.fmodel import (ATTRS, TYPE_SPECS, Common, Enum, Interface, Namelist, Proc, SourceFile, Style, TypeDef, Unit, Var,
+from mc.fmodel import (ATTRS, TYPE_SPECS, Common, Enum, Fixed, Interface, Namelist, Proc, SourceFile, Style, TypeDef, Unit, Var,
                        VarItem)
 
 PROP = "C01"
@@ -29,6 +29,10 @@ DISPLAY_ALL = dict(display=["public", "private", "protected"], proc_internals=Tr
 
 
 def support_items():
+    return [Fixed(i) for i in _support_items()]
+
+
+def _support_items():
     return [
         VarItem(Var("dp", "integer", ["parameter"], initial="8")),
         VarItem(Var("ck", "integer", ["parameter"], initial="1")),
@@ -38,7 +42,7 @@ def support_items():
 
 
 def sentinel(n):
-    return VarItem(Var(f"sent{n}", "logical"))
+    return Fixed(VarItem(Var(f"sent{n}", "logical")))
 
 
 # ---- space (a): declaration atoms -------------------------------------------
@@ -394,9 +398,9 @@ def build_lookalike(case):
     decls += [Var("integer_fn", "integer", shape="(5)"), Var("character_pos", "char", shape="(3)"), Var("type_v", "type")]
     body = list(stmts)
     if host == "program":
-        u = Unit("program", "m", items=[TypeDef("tname", comps=[Var("tc", "integer")])] + [VarItem(d) for d in decls], body=body)
+        u = Unit("program", "m", items=[Fixed(TypeDef("tname", comps=[Var("tc", "integer")]))] + [Fixed(VarItem(d)) for d in decls], body=body)
         return SourceFile("m.f90", [u])
-    p = Proc("subroutine", "hosts", args=[], decls=decls, body=body)
+    p = Proc("subroutine", "hosts", args=[], items=[Fixed(VarItem(d)) for d in decls], body=body)
     u = Unit("module", "m", items=[TypeDef("tname", comps=[Var("tc", "integer")])], procs=[p])
     return SourceFile("m.f90", [u])
 
@@ -469,7 +473,7 @@ def work(chunk):
 
 def all_cases(tier):
     b = 1 if tier == "quick" else 2
-    return [(c, b) for c in itertools.chain(gen_atoms(tier), gen_twolit(tier))] + gen_shapes(tier) + [(c, b) for c in gen_lookalikes(tier)]
+    return [(c, b) for c in itertools.chain(gen_atoms(tier), gen_twolit(tier))] + gen_shapes(tier) + [(c, 1) for c in gen_lookalikes(tier)]
 
 
 def replay(path):
